@@ -59,5 +59,5 @@ func (s TypedStringEnumSchema[T]) UnserializeType(data any) (string, error) {
 	if err != nil {
 		return "", err
 	}
-	return unserialized.(string), nil
+	return string(unserialized.(T)), nil
 }
